@@ -38,6 +38,7 @@ Closed(st, id) ==
          IF RHeld(st.nodes[s.a]) THEN 2
          ELSE IF st.nodes[s.a].g THEN Closed(st, st.nodes[s.a].n) ELSE 0
     [] s.k = "fin" -> Closed(st, s.a)
+    [] s.k = "flag" -> IF st.nodes[s.a].f THEN 0 ELSE 1       \* harness subscription: closed once unsubscribed
     [] s.k = "refcnt" -> Closed(st, s.b)
     [] s.k = "optcell" -> IF RHeld(st.nodes[s.a]) THEN 2 ELSE IF st.nodes[s.a].f THEN 0 ELSE 1
     [] s.k = "subject" ->
@@ -61,6 +62,9 @@ SubsStep(st, fr) ==
            [] s.k = "refcnt" -> Push(st, <<Unsub(s.b), Fr("squery", s.a, "", U, 2), F1("rccheck", s.a)>>)
            [] s.k = "optcell" -> Push(st, <<Acq(s.a), F1("optunsub", s.a), Rel(s.a)>>)
            [] s.k = "subject" -> Push(st, <<F1("sunsub", s.a)>>)
+           [] s.k = "flag" ->     \* harness subscription: records its unsubscription
+                [st EXCEPT !.nodes[s.a].f = FALSE,
+                           !.log = Append(@, LogEntry(100 + st.nodes[s.a].a, "U", U, st.now))]
            [] OTHER -> st
     [] fr.f = "settake" -> [st EXCEPT !.nodes[fr.n].f = FALSE]
     [] fr.f = "mtake" ->        \* holding the composite's cell: take the vector, drop the guard, tear down
